@@ -1,0 +1,215 @@
+//go:build verif
+
+package gjkr
+
+import (
+	"math/big"
+
+	bn256 "github.com/ethereum/go-ethereum/crypto/bn256/cloudflare"
+	"github.com/ipfs/go-log/v2"
+
+	"github.com/keep-network/keep-core/pkg/crypto/ephemeral"
+	"github.com/keep-network/keep-core/pkg/net"
+	"github.com/keep-network/keep-core/pkg/protocol/group"
+	"github.com/keep-network/keep-core/pkg/protocol/state"
+)
+
+// Verification hook (build tag verif): re-exports existing identifiers only
+// (constructors/accessors of the unexported message fields, the initial
+// protocol state that Execute builds, and a read-only view of member state).
+
+// VerifC01InitialState builds the first protocol state exactly like Execute does.
+func VerifC01InitialState(
+	logger log.StandardLogger,
+	seed *big.Int,
+	sessionID string,
+	memberIndex group.MemberIndex,
+	groupSize int,
+	channel net.BroadcastChannel,
+	dishonestThreshold int,
+	membershipValidator *group.MembershipValidator,
+) (state.SyncState, error) {
+	member, err := NewMember(
+		logger,
+		memberIndex,
+		groupSize,
+		dishonestThreshold,
+		membershipValidator,
+		seed,
+		sessionID,
+	)
+	if err != nil {
+		return nil, err
+	}
+	return &ephemeralKeyPairGenerationState{
+		channel: channel,
+		member:  member.InitializeEphemeralKeysGeneration(),
+	}, nil
+}
+
+// VerifC01Result returns the result when s is the finalization state.
+func VerifC01Result(s state.SyncState) *Result {
+	fs, ok := s.(*finalizationState)
+	if !ok {
+		return nil
+	}
+	return fs.result()
+}
+
+// VerifC01View is a read-only snapshot of references into the member state
+// reachable from a protocol state.
+type VerifC01View struct {
+	Group              *group.Group
+	EphemeralKeyPairs  map[group.MemberIndex]*ephemeral.KeyPair
+	SymmetricKeys      map[group.MemberIndex]ephemeral.SymmetricKey
+	SecretCoefficients []*big.Int
+}
+
+// VerifC01ViewOf extracts the view from any of the protocol states.
+func VerifC01ViewOf(s state.SyncState) *VerifC01View {
+	var ekm *EphemeralKeyPairGeneratingMember
+	var skm *SymmetricKeyGeneratingMember
+	var cm *CommittingMember
+	switch st := s.(type) {
+	case *ephemeralKeyPairGenerationState:
+		ekm = st.member
+	case *symmetricKeyGenerationState:
+		skm = st.member
+	case *commitmentState:
+		cm = st.member
+	case *commitmentsVerificationState:
+		cm = st.member.CommittingMember
+	case *sharesJustificationState:
+		cm = st.member.CommittingMember
+	case *qualificationState:
+		cm = st.member.CommittingMember
+	case *pointsShareState:
+		cm = st.member.CommittingMember
+	case *pointsValidationState:
+		cm = st.member.CommittingMember
+	case *pointsJustificationState:
+		cm = st.member.CommittingMember
+	case *keyRevealState:
+		cm = st.member.CommittingMember
+	case *reconstructionState:
+		cm = st.member.CommittingMember
+	case *combinationState:
+		cm = st.member.CommittingMember
+	case *finalizationState:
+		cm = st.member.CommittingMember
+	default:
+		return nil
+	}
+	v := &VerifC01View{}
+	if cm != nil {
+		skm = cm.SymmetricKeyGeneratingMember
+		v.SecretCoefficients = cm.secretCoefficients
+	}
+	if skm != nil {
+		ekm = skm.EphemeralKeyPairGeneratingMember
+		v.SymmetricKeys = skm.symmetricKeys
+	}
+	v.EphemeralKeyPairs = ekm.ephemeralKeyPairs
+	v.Group = ekm.group
+	return v
+}
+
+// ---- message fields ------------------------------------------------------
+
+func (m *EphemeralPublicKeyMessage) VerifC01Fields() (group.MemberIndex, map[group.MemberIndex]*ephemeral.PublicKey, string) {
+	return m.senderID, m.ephemeralPublicKeys, m.sessionID
+}
+
+func VerifC01NewEphemeralPublicKeyMessage(
+	sender group.MemberIndex,
+	keys map[group.MemberIndex]*ephemeral.PublicKey,
+	sessionID string,
+) *EphemeralPublicKeyMessage {
+	return &EphemeralPublicKeyMessage{sender, keys, sessionID}
+}
+
+func (m *MemberCommitmentsMessage) VerifC01Fields() (group.MemberIndex, []*bn256.G1, string) {
+	return m.senderID, m.commitments, m.sessionID
+}
+
+func VerifC01NewMemberCommitmentsMessage(
+	sender group.MemberIndex,
+	commitments []*bn256.G1,
+	sessionID string,
+) *MemberCommitmentsMessage {
+	return &MemberCommitmentsMessage{sender, commitments, sessionID}
+}
+
+// VerifC01Fields returns the encrypted shares as receiver -> [encS, encT].
+func (m *PeerSharesMessage) VerifC01Fields() (group.MemberIndex, map[group.MemberIndex][2][]byte, string) {
+	out := make(map[group.MemberIndex][2][]byte)
+	for k, v := range m.shares {
+		out[k] = [2][]byte{v.encryptedShareS, v.encryptedShareT}
+	}
+	return m.senderID, out, m.sessionID
+}
+
+func VerifC01NewPeerSharesMessage(
+	sender group.MemberIndex,
+	shares map[group.MemberIndex][2][]byte,
+	sessionID string,
+) *PeerSharesMessage {
+	msg := newPeerSharesMessage(sender, sessionID)
+	for k, v := range shares {
+		msg.shares[k] = &peerShares{v[0], v[1]}
+	}
+	return msg
+}
+
+func (m *SecretSharesAccusationsMessage) VerifC01Fields() (group.MemberIndex, map[group.MemberIndex]*ephemeral.PrivateKey, string) {
+	return m.senderID, m.accusedMembersKeys, m.sessionID
+}
+
+func VerifC01NewSecretSharesAccusationsMessage(
+	sender group.MemberIndex,
+	keys map[group.MemberIndex]*ephemeral.PrivateKey,
+	sessionID string,
+) *SecretSharesAccusationsMessage {
+	return &SecretSharesAccusationsMessage{sender, keys, sessionID}
+}
+
+func (m *MemberPublicKeySharePointsMessage) VerifC01Fields() (group.MemberIndex, []*bn256.G2, string) {
+	return m.senderID, m.publicKeySharePoints, m.sessionID
+}
+
+func VerifC01NewMemberPublicKeySharePointsMessage(
+	sender group.MemberIndex,
+	points []*bn256.G2,
+	sessionID string,
+) *MemberPublicKeySharePointsMessage {
+	return &MemberPublicKeySharePointsMessage{sender, points, sessionID}
+}
+
+func (m *PointsAccusationsMessage) VerifC01Fields() (group.MemberIndex, map[group.MemberIndex]*ephemeral.PrivateKey, string) {
+	return m.senderID, m.accusedMembersKeys, m.sessionID
+}
+
+func VerifC01NewPointsAccusationsMessage(
+	sender group.MemberIndex,
+	keys map[group.MemberIndex]*ephemeral.PrivateKey,
+	sessionID string,
+) *PointsAccusationsMessage {
+	return &PointsAccusationsMessage{sender, keys, sessionID}
+}
+
+func (m *MisbehavedEphemeralKeysMessage) VerifC01Fields() (group.MemberIndex, map[group.MemberIndex]*ephemeral.PrivateKey, string) {
+	return m.senderID, m.privateKeys, m.sessionID
+}
+
+func VerifC01NewMisbehavedEphemeralKeysMessage(
+	sender group.MemberIndex,
+	keys map[group.MemberIndex]*ephemeral.PrivateKey,
+	sessionID string,
+) *MisbehavedEphemeralKeysMessage {
+	return &MisbehavedEphemeralKeysMessage{sender, keys, sessionID}
+}
+
+// VerifC01H returns the Pedersen generator H derived from the seed.
+func VerifC01H(seed *big.Int) *bn256.G1 {
+	return newProtocolParameters(seed).H
+}
